@@ -324,7 +324,7 @@ def r4(ctx: Ctx) -> None:
             if d_t is not None and d_t <= 1 and guarded_t:
                 continue
             ok = False
-        ctx.check(ok, f, f.node, "VWAP sums only slots up to a time that is not in the future", "[: t+1] with t = now or `t > self.time -> raise`", p.describe()[:200])
+        ctx.check(ok, f, f.node, "VWAP sums only slots up to a time that is not in the future", "[: t+1] with t = now or `t > self.time -> raise`", p.describe()[:200], guard="text", guard_text=p.describe())
     # getter table
     for g, (series, allow) in GETTERS.items():
         m = ctx.func(f"Market.{g}")
@@ -343,6 +343,20 @@ def r4(ctx: Ctx) -> None:
 
             if not ok and r is not None and unknown_series(r):
                 ctx.unrec(m, m.node, f"{g} reads {series} through the guarded accessor", "the accessor is given something that stands in for the series (a list made on the way): what it holds is not decided", short(r))
+                continue
+            if not ok and r is not None and strip_ver(r)[0] == "call" and key(strip_ver(r)[1]).endswith("fundamentals.get_fundamental_price") and not many:
+                # the getter answers from the generator instead of from what the market recorded: that is access to the future
+                # unless the time asked for is pinned (step 0: the configured starting value) or bounded by the clock on this path
+                rr = strip_ver(r)
+                targ = dict(rr[3]).get("time") or (rr[2][-1] if rr[2] else None)
+                bounded = any(strip_ver(c)[0] == "cmp" and strip_ver(c)[1] in ("<", "<=", ">", ">=") and {key(strip_ver(c)[2]), key(strip_ver(c)[3])} >= {"time", "self.time"} for c, _, _ in p.conds)
+                if targ is not None and strip_ver(targ) == ("const", 0):
+                    ctx.holds(m, m.node, f"{g} reads {series} through the guarded accessor", expected="recorded values only", found="the generator is asked for step 0 only (the configured starting value)")
+                    continue
+                if targ is not None and not bounded and any(x == ("sym", "time") for x in subterms(strip_ver(targ))):
+                    ctx.violated(m, m.node, f"{g} reads {series} through the guarded accessor", f"self.{acc}({arg0}, self.{series}, allow_none={allow}): a time later than the clock is refused", f"{short(r)} on a path that never compares `time` with the clock: a query for a later time is answered from the generator ({p.describe()[:120]})", novel_ok=True)
+                    continue
+                ctx.unrec(m, m.node, f"{g} reads {series} through the guarded accessor", "the getter answers from the generator under conditions the rule does not model", short(r))
                 continue
             ctx.check(ok, m, m.node, f"{g} reads {series} through the guarded accessor", f"self.{acc}({arg0}, self.{series}, allow_none={allow})", short(r))
     # nobody else indexes the series for reading with a foreign index: covered by R5 (stores) and by
@@ -507,7 +521,7 @@ def r7(ctx: Ctx) -> None:
                 own = isinstance(node.value, _ast.Name) and node.value.id == "self" and g.cls is not None and ctx.program.is_subclass(g.cls.name, "Market")
                 if own:
                     continue
-                ctx.violated(g, node, "a market's series is reached through its accessors (which refuse future times)", "market.get_<series>(time) / self.<series> inside Market", f"{_ast.unparse(node)} in {g.qualname}: the read bypasses the `later than now` test")
+                ctx.violated(g, node, "a market's series is reached through its accessors (which refuse future times)", "market.get_<series>(time) / self.<series> inside Market", f"{_ast.unparse(node)} in {g.qualname}: the read bypasses the `later than now` test", guard="site")
     ctx.require(n >= 10, "series attribute accesses not found")
     ctx.holds(None, None, "no function outside Market reads a series attribute directly", "reads only via accessors", f"{n} accesses inspected")
 
